@@ -111,6 +111,7 @@ class Seq:
 
 
 BARE = "bare"
+REFUSE = "refuse"    # no single unit fits every slot of the result: the call must not return a value
 ANY = "any"          # unit-agnostic by documentation (ones_like ...): magnitude compared only
 KX = U({"X": 1})
 KY = U({"Y": 1})
@@ -597,8 +598,36 @@ def _uniform_mask(g, shp, axis):
     return m
 
 
+def _ragged_mask(g, shp, axis, with_zero):
+    """2-D mask whose output slots multiply DIFFERENT numbers of elements (at least two distinct non-zero
+    counts; with_zero: one slot selects nothing)"""
+    other = 1 - axis
+    n, slots = shp[axis], shp[other]
+    counts = [1, 2] + ([0] if with_zero else []) + [g.r.randint(0, n) for _ in range(slots)]
+    counts = counts[:slots]
+    g.r.shuffle(counts)
+    m = np.zeros(shp, dtype=bool)
+    for j, c in enumerate(counts):
+        idx = g.r.sample(range(n), c)
+        for i in idx:
+            m[(i, j) if axis == 0 else (j, i)] = True
+    return m
+
+
+def _ragged_call(g, role):
+    axis = g.r.randrange(2)
+    shp = [0, 0]
+    shp[axis], shp[1 - axis] = g.r.randint(2, 4), g.r.randint(3, 5)
+    a = QA(role, g.pos(tuple(shp)))
+    return C(a, axis=axis, where=_ragged_mask(g, tuple(shp), axis, g.r.random() < 0.7))
+
+
 for _n in ("prod", "nanprod"):
     add("func", _n,
+        # slots that multiply different numbers of elements: a dimensional array has no single result unit
+        # (the call must refuse), a dimensionless one (percent, ppm ...) gives plain numbers
+        where_ragged=V(lambda g: _ragged_call(g, "X"), REFUSE, err=False),
+        where_ragged_dimensionless=V(lambda g: _ragged_call(g, "H"), DIMLESS, err=False),
         plain=V(lambda g: C(qx(g, "pos", hi=2)), _prod_res(_n)),
         axis=V(lambda g: (lambda a: C(a, axis=g.axis(a.base.shape)))(qx(g, "pos", lo=1, hi=2)),
                _prod_res(_n)),
